@@ -1,5 +1,36 @@
-(* C17: placeholder while the dynamic-codec model is being validated against the crate. *)
-From PV Require Import Base MachineInt VarintParams GenArith GenLoops Varint VarintCore.
+(* C17: the dynamic (schema-driven) codec agrees with the static codec and serde_json.
+   Only statements, `exact`, and Print Assumptions live here.
+
+   conforms d v s: the named data-model items v (what a type's Serialize emits) conform to
+   schema s (C14); json_of: serde_json::to_value on those items; unamb / in_scope: the
+   property's own restrictions (integers within i64 / u64, finite floats, string-keyed maps
+   with ascending keys; no embedded-schema kind, nothing nullable directly inside Option,
+   distinct field and variant names); dyn_ser: to_stdvec_dyn; enc: the static encoder of
+   C01/C02.  The host's float conversions are parameters; the only fact used about them is
+   that widening an f32 and narrowing it back is the identity. *)
+From PV Require Import Base MachineInt VarintParams GenLoops DataModel Schema SchemaConv Conform Dyn JsonOf Ser VarintCore DynAgree.
+Open Scope N_scope.
+
+(* encoding the serde_json form of a value under its schema yields exactly the bytes the static
+   encoder yields - for every schema, every conforming value *)
+Theorem C17_encode_agrees : forall int_to_f64 narrow widen,
+  (forall b, b < 2 ^ 32 -> f32_finite b = true -> narrow (widen b) = b) ->
+  forall d v s, conforms d v s = true -> unamb v = true -> in_scope s = true ->
+  dyn_ser int_to_f64 narrow s (json_of widen v) = DOk (enc (erase v)).
+Proof. exact ser_agree_enc. Qed.
+
+(* the crate's private copies of the varint writers are the core's *)
 Theorem C17_private_copies_agree : dyn_writers = core_writers.
 Proof. exact dyn_writers_std. Qed.
+
+(* non-vacuity: enum E { A, B { x: u8, y: i16 } } inside Option inside Vec, with a float *)
+Example C17_example :
+  let s := STuple [SSeq (SOption (SEnum [69] [([65], DUnit, []); ([66], DStruct, [([120], SPrim PU8); ([121], SPrim PI16)])])); SPrim PF32] in
+  let v := NTuple [NSeq [NSome (NVariant [69] 1 [66] (NStruct [66] [([120], NInt U8 7); ([121], NInt I16 (-2))])); NNone;
+                         NSome (NVariant [69] 0 [65] (NUnitStruct [65]))]; NF32 1069547520] in
+  conforms 1 v s = true /\ unamb v = true /\ in_scope s = true /\
+  dyn_ser (fun _ => 0) (fun b => 1069547520) s (json_of (fun b => 4609434218613702656) v) = DOk (enc (erase v)).
+Proof. repeat split; vm_compute; reflexivity. Qed.
+
+Print Assumptions C17_encode_agrees.
 Print Assumptions C17_private_copies_agree.
